@@ -54,8 +54,29 @@ def step (σ : St) (op obs : List String) : St × List Msg :=
     let implIn := showMeshes src.impl
     let pre := expectEq "push.state" mIn inm ++
       (if implIn = inm then [] else [Msg.propfail "full_state_is_state" "push-mismatch" s!"marshal={inm} dump={implIn}"])
+    -- C19 `full_state_superset` on the implementation's own dumps (independent of the decoded payload): after the
+    -- receiver merged the sender's full state it holds, for every id of the sender that is not past its retention,
+    -- a version at least as new — an expired (ended) silence that is still retained is part of the full state: it is
+    -- how an instance that missed the expiry learns of it
+    let nowI := toInt! now
+    let cur := parseMeshes dmp
+    let retained := src.impl.filter fun m => m.exp ≥ nowI
+    let pfSup := retained.filterMap fun m =>
+      let ended := getState m.sil nowI = .expired
+      match find cur m.sil.id with
+      | some q => if q.sil.updated < m.sil.updated then
+          some (Msg.propfail "full_state_superset" (if ended then "full-state-omits-retained" else "full-state-omits-entry")
+            s!"id={m.sil.id} sender has updated={m.sil.updated} end={m.sil.stop} exp={m.exp} now={now}; receiver after the push: updated={q.sil.updated} end={q.sil.stop}") else none
+      | none => some (Msg.propfail "full_state_superset" (if ended then "full-state-omits-retained" else "full-state-omits-entry")
+            s!"id={m.sil.id} sender has updated={m.sil.updated} end={m.sil.stop} exp={m.exp} now={now}; absent on the receiver after the push")
+    let tagsP : List Msg := (if retained.any (fun m => getState m.sil nowI = .expired) then [.tag "push:sender-has-ended-retained"] else [])
+      ++ (if retained.any (fun m => decide (getState m.sil nowI = .expired) &&
+            (match find (getI σ (toNat! j)).impl m.sil.id with
+             | some q => decide (q.sil.updated < m.sil.updated) && decide (getState q.sil nowI ≠ .expired)
+             | none => false))
+          then [.tag "push:expiry-learnt-by-full-state"] else [])
     match stepCommon σ.cfg (getI σ (toNat! j)) ["merge", now, ov, inm] [nb, ver, dmp] with
-    | some (x, msgs) => (setI σ (toNat! j) x, pre ++ msgs ++ [.tag "push"])
+    | some (x, msgs) => (setI σ (toNat! j) x, pre ++ msgs ++ pfSup.take 3 ++ tagsP ++ [.tag "push"])
     | none => (σ, [.diff "parse" "?" "push"])
   | o :: i :: rest, _ =>
     match stepCommon σ.cfg (getI σ (toNat! i)) (o :: rest) obs with
